@@ -903,6 +903,8 @@ func exec(line string) (res h.Result) {
 		return execSub(w)
 	case "ent":
 		return execEnt(w)
+	case "al":
+		return execAL(w)
 	}
 	panic("bad case line")
 }
